@@ -263,6 +263,37 @@ ACCEPTS = (
 )
 
 
+def ipv4_serialize_problems(ctx, prog, only=None):
+    """Ipv4Header::serialize reduced to one Ipv4HeaderBuilder value (struct literal, or new(..) followed by setters, all
+    inlined): every builder field must be the header field of the same name (payload_length = total_length - 20)."""
+    from .. import symx as S
+    ser = prog.method("Ipv4Header", "serialize")
+    probs = []
+    badt = prog.adt("ipv4_parsing::Ipv4HeaderBuilder")
+    fnames = [f["name"] for f in badt["variants"][0]["fields"]]
+    inl = [k for k, x in prog.bodies.items() if x.kind == "method" and x.self_ty is not None and x.types[x.self_ty].get("d", "") == badt["key"] and x.name != "build" and not x.derived]
+    try:
+        t, _ex = S.extract(prog, ser, inline=inl)
+    except S.Unsupported as e:
+        ctx.require(False, "cannot extract Ipv4Header::serialize (%s)" % e)
+    # the value handed to build(): a struct literal or new(..) followed by setters, all reduced to one aggregate
+    if not (t[0] == "call" and t[1].endswith("{impl#1}::build") and len(t[2]) == 1 and t[2][0][0] == "agg" and len(t[2][0][2]) == len(fnames)):
+        probs.append("serialize is not build() of one fully determined Ipv4HeaderBuilder value: %s" % S.term_str(t)[:200])
+    else:
+        me = ("param", "self")
+        base = prog.const_val("ipv4_parsing::BASE_OCTETS")
+        for f, x in zip(fnames, t[2][0][2]):
+            if only is not None and f not in only:
+                continue
+            if f == "payload_length":
+                want = S.lin(("bin", "Sub", ("field", me, "total_length"), ("const", base)))
+                if S.lin(x) != want:
+                    probs.append("payload_length = %s, expected self.total_length - %d" % (S.term_str(x), base))
+            elif x != ("field", me, f):
+                probs.append("the re-encoded header takes %s from %s instead of the decoded header's %s" % (f, S.term_str(x), f))
+    return probs
+
+
 def run(ctx):
     prog = ctx.prog()
     codecs = {
@@ -316,28 +347,7 @@ def run(ctx):
     (ctx.bad if probs else ctx.ok)("W-LAYOUT", "W-LAYOUT:dns", tm.span, "; ".join(probs[:4]) if probs else "encoder and decoder agree on %d positions" % len(ae))
     # IPv4: serialize maps header fields to builder fields one-to-one
     ser = prog.method("Ipv4Header", "serialize")
-    from .. import symx as S
-    probs = []
-    badt = prog.adt("ipv4_parsing::Ipv4HeaderBuilder")
-    fnames = [f["name"] for f in badt["variants"][0]["fields"]]
-    inl = [k for k, x in prog.bodies.items() if x.kind == "method" and x.self_ty is not None and x.types[x.self_ty].get("d", "") == badt["key"] and x.name != "build" and not x.derived]
-    try:
-        t, _ex = S.extract(prog, ser, inline=inl)
-    except S.Unsupported as e:
-        ctx.require(False, "W-LAYOUT: cannot extract Ipv4Header::serialize (%s)" % e)
-    # the value handed to build(): a struct literal or new(..) followed by setters, all reduced to one aggregate
-    if not (t[0] == "call" and t[1].endswith("{impl#1}::build") and len(t[2]) == 1 and t[2][0][0] == "agg" and len(t[2][0][2]) == len(fnames)):
-        probs.append("serialize is not build() of one fully determined Ipv4HeaderBuilder value: %s" % S.term_str(t)[:200])
-    else:
-        me = ("param", "self")
-        base = prog.const_val("ipv4_parsing::BASE_OCTETS")
-        for f, x in zip(fnames, t[2][0][2]):
-            if f == "payload_length":
-                want = S.lin(("bin", "Sub", ("field", me, "total_length"), ("const", base)))
-                if S.lin(x) != want:
-                    probs.append("payload_length = %s, expected self.total_length - %d" % (S.term_str(x), base))
-            elif x != ("field", me, f):
-                probs.append("the re-encoded header takes %s from %s instead of the decoded header's %s" % (f, S.term_str(x), f))
+    probs = ipv4_serialize_problems(ctx, prog)
     (ctx.bad if probs else ctx.ok)("W-LAYOUT", "W-LAYOUT:ipv4:serialize", ser.span, "; ".join(probs) if probs else "Ipv4Header::serialize hands every header field to the builder field of the same name")
     ctx.extra["layouts"] = samples
 
